@@ -98,6 +98,13 @@ func (c CurlyRouter) matchesRouteByPathTokens(routeTokens, requestTokens []strin
 					return false, 0, 0
 				}
 			}
+		} else if opening, closing := strings.Index(routeToken, "{"), strings.Index(routeToken, "}"); opening > 0 && closing > opening && strings.Index(routeToken, ":") == -1 {
+			// prefix{var}suffix : the request token must have both literal parts around the value
+			prefix, suffix := routeToken[:opening], routeToken[closing+1:]
+			if len(requestToken) < len(prefix)+len(suffix) || !strings.HasPrefix(requestToken, prefix) || !strings.HasSuffix(requestToken, suffix) {
+				return false, 0, 0
+			}
+			paramCount++
 		} else { // no { prefix
 			if requestToken != routeToken {
 				return false, 0, 0
